@@ -13,8 +13,8 @@ from .. import eqv
 ID = 'C28'
 LEVEL = 'exploration'
 TECHNIQUE = 'property-based testing against a reference implementation of the documented upsert'
-RULE = ('case = table Tab1 (A Text, B Int, R Ref:Src, CL ChoiceList, C Text, D Int) with 0..7 rows drawn from small value '
-        'pools (so that several records match), one request in bulk (0..4 input rows) or single form with `require` over a '
+RULE = ('case = table Tab1 (A Text, B Int, R Ref:Src, CL ChoiceList, C Text, D Int) with 0..10 rows drawn from small value '
+        'pools, some repeated with another payload (so that several records match), one request in bulk (0..4 input rows) or single form with `require` over a '
         'subset of {A, B, R} (classes: also id, also the ChoiceList column, empty), `col_values` over a subset of all columns '
         '(may overlap require), options on_many in {first, none, all, absent, bad values} / update / add / allow_empty_require, '
         'and argument shapes that are invalid (a list of different length, repeated require rows, empty require without '
@@ -55,23 +55,27 @@ ON_MANY = ['first', 'none', 'all']
 def strategy(tier):
   sel = st.integers(0, 7)
   row = st.fixed_dictionaries({c: sel for c, _ in COLS})
-  rows = st.lists(row, min_size=0, max_size=7)
+  rows = st.one_of(st.lists(row, min_size=3, max_size=7), st.lists(row, min_size=3, max_size=7),
+                   st.lists(row, min_size=3, max_size=7), st.lists(row, min_size=0, max_size=2))
   req_cols = st.one_of(
     st.lists(st.sampled_from(['A', 'B', 'R']), min_size=1, max_size=3, unique=True),
     st.lists(st.sampled_from(['A', 'B', 'R']), min_size=1, max_size=2, unique=True),
     st.lists(st.sampled_from(['A', 'B', 'R']), min_size=1, max_size=2, unique=True),
     st.lists(st.sampled_from(['A', 'B', 'R', 'id', 'CL']), min_size=0, max_size=3, unique=True))
   val_cols = st.lists(st.sampled_from(['A', 'B', 'R', 'CL', 'C', 'C', 'D']), min_size=0, max_size=3, unique=True)
-  options = st.fixed_dictionaries({}, optional={
-    'on_many': st.one_of(st.sampled_from(ON_MANY), st.sampled_from(ON_MANY), st.sampled_from(ON_MANY),
-                         st.sampled_from(['any', 'First', '', None, 1])),
-    'update': st.booleans(), 'add': st.booleans(), 'allow_empty_require': st.booleans()})
+  # '~' = key absent (default behaviour)
+  options = st.fixed_dictionaries({
+    'on_many': st.sampled_from(['~', 'first', 'none', 'all', '~', 'none', 'all', 'all', 'none', 'any', 'First', '', 1]),
+    'update': st.sampled_from(['~', True, True, False, '~']), 'add': st.sampled_from(['~', True, True, False, '~']),
+    'allow_empty_require': st.sampled_from(['~', True, False, True])})
   inp = st.fixed_dictionaries({'req': st.fixed_dictionaries({c: sel for c in ['A', 'B', 'R', 'CL', 'id']}),
                                'val': st.fixed_dictionaries({c: sel for c, _ in COLS}),
                                'conv': st.integers(0, 2)})
   return st.fixed_dictionaries({
-    'rows': rows, 'form': st.sampled_from(['bulk', 'bulk', 'single']), 'req_cols': req_cols, 'val_cols': val_cols,
-    'inputs': st.lists(inp, min_size=0, max_size=4), 'options': options,
+    # rows repeated with another payload: records that agree on every require column
+    'dup': st.lists(st.integers(0, 6), min_size=0, max_size=3),
+    'rows': rows, 'form': st.sampled_from(['bulk', 'single', 'bulk']), 'req_cols': req_cols, 'val_cols': val_cols,
+    'inputs': st.one_of(*([st.lists(inp, min_size=1, max_size=4)] * 7 + [st.just([])])), 'options': options,
     # index of a value list to cut short (mismatched lengths); mostly absent
     'cut': st.one_of(st.none(), st.none(), st.none(), st.none(), st.none(), st.none(), st.integers(0, 5)),
     # conversion class switch: require values are sent in a representation that needs conversion
@@ -135,7 +139,8 @@ def build_request(case, table_rows):
   inputs = [i for i in (case.get('inputs') or []) if isinstance(i, dict)][:5]
   if form == 'single':
     inputs = (inputs or [{}])[:1]
-  options = {k: v for k, v in (case.get('options') or {}).items() if k in ('on_many', 'update', 'add', 'allow_empty_require')} \
+  options = {k: v for k, v in (case.get('options') or {}).items()
+             if k in ('on_many', 'update', 'add', 'allow_empty_require') and v != '~'} \
     if isinstance(case.get('options'), dict) else {}
   conv = bool(case.get('conv'))
   aim = bool(case.get('aim'))
@@ -298,6 +303,11 @@ def run_case(case):
     options = ua[4]
   else:
     rows = [r for r in (case.get('rows') or []) if isinstance(r, dict)][:8]
+    for k in (case.get('dup') or [])[:3]:
+      if rows:
+        twin = dict(rows[abs(_int(k)) % len(rows)])
+        twin['C'] = abs(_int(twin.get('C'))) + 1
+        rows.append(twin)
     if rows:
       cv = {c: [pool(c, r.get(c)) for r in rows] for c, _ in COLS}
       r = d.apply([['BulkAddRecord', TABLE, [None] * len(rows), cv]])
